@@ -487,10 +487,11 @@ def _chunk_size_line_block(rng, tier):
     with a second cut"""
     out = []
     shapes = [
-        ([256, 5], [[0, ""], [0, ""]]),                 # "100" then "5"
         ([5, 3, 1], [[3, ""], [0, ";ext=1"], [0, ""]]),  # "0005", "3;ext=1", "1"
-        ([300, 17, 2], [[0, ""], [1, ""], [0, ""]]),      # "12c", "011", "2"
+        ([16, 2], [[1, ""], [0, ""]]),                   # "010" then "2"
         ([4, 4], [[0, ";a=b;c"], [2, ""]]),              # "4;a=b;c", "004"
+        ([256, 5], [[0, ""], [0, ""]]),                  # "100" then "5"            (thorough)
+        ([300, 17, 2], [[0, ""], [1, ""], [0, ""]]),      # "12c", "011", "2"         (thorough)
     ]
     for sizes, fmt in (shapes if tier != "quick" else shapes[:3]):
         n = sum(sizes)
